@@ -366,6 +366,8 @@ class SFTPFile(BufferedFile):
         self.sftp._log(
             DEBUG, "truncate({}, {!r})".format(hexlify(self.handle), size)
         )
+        if not (self._flags & self.FLAG_WRITE):
+            raise IOError("File not open for writing")
         # pending writes must reach the file before it is resized, and
         # read-ahead data may no longer exist afterwards
         self.flush()
